@@ -362,8 +362,12 @@ def programs(thorough, seed):
                     if e['sources'] is not None:
                         e['derived'] = True
                 progs.append([g2, probe])
-    if thorough:
-        for d1, d2 in itertools.combinations(devs, 2):
+    # pairs of deviations: all of them (thorough) / one residue class mod 4
+    # chosen by the seed (quick)
+    for pi, (d1, d2) in enumerate(itertools.combinations(devs, 2)):
+        if not thorough and pi % 4 != seed % 4:
+            continue
+        if True:
             if d1[0] == d2[0]:
                 continue
             g = apply_dev(apply_dev(base, *d1), *d2)
